@@ -46,21 +46,25 @@ class _DaskRewrite(ast.NodeTransformer):
 
 
 def _helper_is_transparent(model):
-    """the module-level helper used by dask.starmap must be the transparent application the rewrite assumes"""
+    """the module-level helper used by dask.starmap must be the transparent application the rewrite assumes
+    (decided on its symbolic normal form: temporaries are transparent)"""
+    from ..symexpr import SymEval, nf
     fn = model.function('streamz.dask', '_apply_with_args', required=False)
     if fn is None:
         return True
-    body = [s for s in fn.node.body if not (isinstance(s, ast.Expr) and isinstance(s.value, ast.Constant))]
     p = fn.params()
-    return len(body) == 1 and isinstance(body[0], ast.Return) and len(p) == 4 and \
-        src(body[0].value).replace(' ', '') in ('%s(*(%s+%s),**%s)' % (p[0], p[1], p[2], p[3]),
-                                                '%s(*%s+%s,**%s)' % (p[0], p[1], p[2], p[3]))
+    if len(p) != 4:
+        return False
+    paths = [r for r in SymEval(model, None).run(fn) if not r.raised]
+    if len(paths) != 1 or paths[0].ret is None:
+        return False
+    return nf(paths[0].ret) in ('%s(*(%s+%s),**%s)' % (p[0], p[1], p[2], p[3]), '%s(*%s+%s,**%s)' % (p[0], p[1], p[2], p[3]))
 
 
 def _signature(model, cls, fn, rewrite):
     """path signatures on symbolic normal forms (helper methods spliced, temporaries substituted, branch order irrelevant)"""
     import copy
-    from ..symexpr import SymEval
+    from ..symexpr import SymEval, norm_cond
 
     def rw(e):
         if e is None:
@@ -76,9 +80,10 @@ def _signature(model, cls, fn, rewrite):
         for c, o in p.conds:
             if c.startswith('<'):
                 continue
-            t = rw(ast.parse(c, mode='eval').body)
+            c2, o2 = norm_cond(c, o)
+            t = rw(ast.parse(c2, mode='eval').body)
             if 'client' not in t:
-                conds.append((t, o))
+                conds.append((t, o2))
         st = [v for f, v, s_, l in p.stores if f == 'state']
         em = tuple((rw(d), rw(m)) for d, m, s_, l in p.emits)
         rets = rw(p.ret)
@@ -160,9 +165,10 @@ def check_registry_and_mro(ctx, R):
                  'Stream.scatter does not lead to the Dask scatter node', None)
     # DaskStream.__init__
     init = ds.methods.get('__init__')
-    sets = init is not None and any(isinstance(n, ast.Assign) and isinstance(n.targets[0], ast.Subscript)
-                                    and src(n.targets[0]).replace('"', "'") == "kwargs['ensure_io_loop']"
-                                    and isinstance(n.value, ast.Constant) and n.value.value is True for n in own_nodes(init.node))
+    from .loopbind import kwargs_sets
+    kwn = init.node.args.kwarg.arg if init is not None and init.node.args.kwarg else None
+    sets = init is not None and kwn is not None and any(
+        kwargs_sets(n, kwn).get('ensure_io_loop') is True for n in own_nodes(init.node) if isinstance(n, (ast.Assign, ast.Expr)))
     fwd = init is not None and any(isinstance(n, ast.Call) and isinstance(n.func, ast.Attribute) and n.func.attr == '__init__'
                                    and isinstance(n.func.value, ast.Call) and src(n.func.value.func) == 'super'
                                    and any(isinstance(a, ast.Starred) for a in n.args)
